@@ -131,6 +131,11 @@ ERROR_ARRAY_ACCESS_WITH_NONSCALAR = ErrorMessage(
 ERROR_ARRAY_ACCESS_WITH_NONINTEGER = ErrorMessage(
     2010, Severity.ERROR, """Array access requires an integer, got '{}'."""
 )
+ERROR_INCREMENT_REQUIRES_SCALAR = ErrorMessage(
+    2012,
+    Severity.ERROR,
+    """Increment and decrement require a scalar, got '{}'.""",
+)
 ERROR_SWIZZLE_COMPONENT_OUT_OF_RANGE = ErrorMessage(
     2011,
     Severity.ERROR,
